@@ -17,7 +17,7 @@
 (***************************************************************************)
 EXTENDS Integers, Sequences, FiniteSets, TLC, Json
 
-CONSTANTS L, Rewards
+CONSTANTS L, Rewards, Episodes   \* Episodes: the recorded episodes (schedules) of the compiled graph; {0} for the replayed histories
 InitG == 1   \* graph step counter after Environment.reset (first partition run)
 InitObs == 1
 
@@ -27,19 +27,21 @@ vars == <<hist, st, outs>>
 Init ==
   /\ hist = <<>>
   /\ outs = <<>>
-  /\ st = [g |-> InitG, ret |-> 0, len |-> 0, rret |-> 0, rlen |-> 0, ts |-> 0,
+  /\ \E e \in Episodes : st = [eps |-> e, sched |-> e,               \* Environment.reset draws the episode (randomize_eps); its schedule is in force
+           g |-> InitG, ret |-> 0, len |-> 0, rret |-> 0, rlen |-> 0, ts |-> 0,
            on |-> 1, osx |-> InitObs, osxx |-> InitObs * InitObs,        \* observation moments: the reset observation is seen
            rv |-> 0, rn |-> 0, rsx |-> 0, rsxx |-> 0]                     \* discounted-return moments
 
-Step(r, te, tr) ==
+Step(r, te, tr, e) ==
   LET done == te \/ tr
+      eps2 == IF done THEN e ELSE st.eps  \* AutoResetWrapper(fixed_init = FALSE): the episode is drawn anew; fixed_init: e = the stored one
       g1 == st.g + 1                      \* Environment.step = graph.step with the supervisor's output set from the action
       g2 == IF done THEN InitG ELSE g1    \* AutoResetWrapper: stored (or freshly drawn) initial state ...
       obs == IF done THEN InitObs ELSE g1 \* ... and its observation; reward and flags still describe the finished episode
       nret == st.ret + r
       nlen == st.len + 1
       rv == IF done THEN r ELSE st.rv + r
-      n == [g |-> g2,
+      n == [g |-> g2, eps |-> eps2, sched |-> eps2,   \* the reset state as a whole: episode number AND its schedule (timings_eps)
             ret |-> IF done THEN 0 ELSE nret, len |-> IF done THEN 0 ELSE nlen,
             rret |-> IF done THEN nret ELSE st.rret, rlen |-> IF done THEN nlen ELSE st.rlen, ts |-> st.ts + 1,
             on |-> st.on + 1, osx |-> st.osx + obs, osxx |-> st.osxx + obs * obs,
@@ -47,11 +49,11 @@ Step(r, te, tr) ==
   IN /\ Len(hist) < L
      /\ hist' = Append(hist, [r |-> r, te |-> te, tr |-> tr])
      /\ st' = n
-     /\ outs' = Append(outs, [obs |-> obs, r |-> r, te |-> te, tr |-> tr, done |-> done, g |-> g2, rret |-> n.rret, rlen |-> n.rlen, ts |-> n.ts,
+     /\ outs' = Append(outs, [obs |-> obs, r |-> r, te |-> te, tr |-> tr, done |-> done, g |-> g2, eps |-> n.eps, sched |-> n.sched, rret |-> n.rret, rlen |-> n.rlen, ts |-> n.ts,
                               on |-> n.on, osx |-> n.osx, osxx |-> n.osxx, rn |-> n.rn, rsx |-> n.rsx, rsxx |-> n.rsxx])
 
 (* the configuration file cannot hold negative numbers: Rewards are codes, the reward is code - 1 *)
-Next == \E rc \in Rewards, te, tr \in BOOLEAN : Step(rc - 1, te, tr)
+Next == \E rc \in Rewards, te, tr \in BOOLEAN, e \in Episodes : Step(rc - 1, te, tr, e)
 Spec == Init /\ [][Next]_vars
 
 ---------------------------------------------------------------------------
@@ -74,6 +76,10 @@ AutoResetSemantics ==
      /\ Done(i) => outs[i].g = InitG /\ outs[i].obs = InitObs
      /\ ~Done(i) => outs[i].g = (IF i = 1 THEN InitG ELSE outs[i - 1].g) + 1
      /\ outs[i].r = hist[i].r /\ outs[i].te = hist[i].te /\ outs[i].tr = hist[i].tr
+(* the schedule in force is always the schedule of the episode in force, and the episode only changes at an episode end *)
+ScheduleInForce ==
+  /\ st.sched = st.eps
+  /\ \A i \in 1..Len(hist) : outs[i].sched = outs[i].eps /\ (~Done(i) /\ i > 1 => outs[i].eps = outs[i - 1].eps)
 (* running moments are those of everything seen so far *)
 MomentsOfEverythingSeen ==
   /\ st.on = 1 + Len(hist)
